@@ -14,7 +14,7 @@
      advance_consistent f s l      spacing = 0 (all built-in fonts), or a text/background colour is set, or l is empty
      font_ok / draw_ok             range conditions of C14 (fields non-negative, |coordinates| <= 2^28)  *)
 From EG Require Import Base.Prelude Model.Geometry Proofs.Geometry Model.Fontmodel Proofs.Fontmodel
-  Model.Textmodel Proofs.Textmodel Gen.FontTable Model.Fontbuiltin Proofs.Fontbuiltin.
+  Model.Textmodel Proofs.Textmodel Gen.FontTable Model.Fontbuiltin Proofs.Fontbuiltin Proofs.Textbuiltin.
 
 (* draw_string returns the position that measure_string predicts *)
 Theorem C15_draw_returns_measured : forall F s text pos b,
@@ -34,10 +34,7 @@ Theorem C15_builtin_draw_returns_measured : forall b idx atlas s text pos bl,
   In b fonts ->
   let F := MFont (bf_font b) idx atlas in
   snd (draw_string F s text pos bl) = snd (measure_string (bf_font b) s text pos bl).
-Proof.
-  intros b idx atlas s text pos bl H. cbn zeta. destruct (builtin_font_wf b H) as [Hw Hsp].
-  apply draw_returns_measured; cbn [mf_geom]; [red in Hw; unfold font_ok in Hw; lia|lia|left; exact Hsp].
-Qed.
+Proof. exact builtin_draw_returns_measured. Qed.
 
 (* chaining (left alignment - the only alignment for which a continuation position is meaningful -, fonts
    without spacing, s1 not ending in '\r'): draw s1, draw s2 at the returned position = draw (s1 ++ s2) *)
